@@ -3,6 +3,7 @@ package ot
 import (
 	"crypto/rand"
 	"encoding/binary"
+	"errors"
 	"fmt"
 
 	"github.com/taurusgroup/multi-party-sig/internal/params"
@@ -90,6 +91,9 @@ type ExtendedOTSendResult struct {
 func ExtendedOTSend(ctxHash *hash.Hash, setup *CorreOTSendSetup, batchSize int, msg *ExtendedOTReceiveMessage) (*ExtendedOTSendResult, error) {
 	inflatedBatchSize := batchSize + params.OTParam + params.StatParam
 
+	if msg == nil || msg.CorreMsg == nil {
+		return nil, errors.New("ExtendedOTSend: message is missing its parts")
+	}
 	correResult, err := CorreOTSend(ctxHash, setup, inflatedBatchSize, msg.CorreMsg)
 	if err != nil {
 		return nil, err
